@@ -22,9 +22,13 @@ SETS = ["abcjl", "defjmw", "giokj", "adfgj", "abcij1", "qv2j3", "lwqbmj", "a1c3e
 HANDLER = "delete p; delete u; delete r; delete s; delete t; n = [n + 1]; h();"
 
 
-def program(ops, handler=HANDLER, safe_only=True):
+# operations placed before the first match: they become start actions and run inside start(), after the defaults were stored
+START_PREFIXES = ['s = "cd";', 'p = "k"; p = "j";', 'delete s;', 'delete s; s = "x"; t = "";', 't += [65]; p += [66]; u += [67];', 's = "cd"; delete s; s = "e"; u = "hi"; u = "k";']
+
+
+def program(ops, handler=HANDLER, safe_only=True, prefix=""):
     clauses = "\n".join('      "%s" -> { %s }' % (o, OPS[o]) for o in ops)
-    return DECL + "parser {\n  loop {\n    try {\n      case {\n%s\n      }\n    } catch (outofspace) { %s }\n  }\n}\n" % (clauses, handler)
+    return DECL + "parser {\n  " + prefix + "\n  loop {\n    try {\n      case {\n%s\n      }\n    } catch (outofspace) { %s }\n  }\n}\n" % (clauses, handler)
 
 
 def alphabet(ops):
@@ -38,6 +42,9 @@ def programs():
     out = []
     for ops in SETS:
         out.append(dict(label="STR-" + ops, src=program(ops), argv=[], alphabet=alphabet(ops), sentinels=SENT, uses_oob_index=("k" in ops or "n" in ops)))
+    for i, pre in enumerate(START_PREFIXES):
+        ops = ("giokj3", "abcjl", "giobj", "q2gij", "adgjm", "giodj")[i]
+        out.append(dict(label="STR-start%d" % i, src=program(ops, prefix=pre), argv=[], alphabet=alphabet(ops), sentinels=SENT, uses_oob_index=("k" in ops or "n" in ops)))
     # non-loop shapes: zero-capacity string, defaults, exact fits
     out.append(dict(label="STR-cap0", src='out str[1] e; out int{unsigned, size 1} z1 = 165; hook h; parser { try { e += /a+/; } catch (outofspace) { h(); } "b"; }\n', argv=[], alphabet=list(b"ab"), sentinels={"z1": 165}, uses_oob_index=False))
     out.append(dict(label="STR-exact", src='out unterminated str[3] u = "abc"; out int{unsigned, size 1} z1 = 165; out str[4] s = "abc"; out int{unsigned, size 1} z2 = 165; hook h; parser { h(); loop { case { "a" -> { u = "xyz"; s = "xyz"; } "b" -> { delete u; u += /[xy]+/; ";"; } "c" -> { try { s += /[xy]/; } catch (outofspace) { delete s; h(); } } } } }\n',
